@@ -42,13 +42,16 @@ def _step(act, st):
                          maintx=_rec(obs["maintx"])))
 
 
-def design_checks(c):
+def design_configs(tier):
     cfgs = [("MC_NodePool.cfg", "NodePool design, tree N1 (two branches of length 3 and 4, shared and conflicting txs), 2 validity assignments, 1 own block")]
-    if c.tier == "thorough":
+    if tier == "thorough":
         cfgs += [("MC_NodePool_big.cfg", "NodePool design, tree N1, 4 validity assignments, 7 submittable txs, 2 own blocks"),
                  ("MC_NodePool_N2.cfg", "NodePool design, tree N2 (three branches), 3 validity assignments")]
-    for cfg, what in cfgs:
-        c.require_ok(vlib.tlc(SPEC_DIR, "MC_NodePool", cfg, c.work, timeout=2400), what)
+    return cfgs
+
+
+def design_check(c, cfg, what):
+    c.require_ok(vlib.tlc(SPEC_DIR, "MC_NodePool", cfg, c.work, timeout=2400), what)
 
 
 def edge_cover(c, rng, max_paths=None):
@@ -170,9 +173,9 @@ def run_nodepool(c, pid):
     t0 = time.time()
     rng = random.Random(c.seed * 7919 + 17)
     quick = c.tier == "quick"
-    sims = [("Sim_NodePool.cfg", "N1", 90 if quick else 900, 16)]
+    sims = [("Sim_NodePool.cfg", "N1", 90 if quick else 700, 16)]
     if not quick:
-        sims.append(("Sim_NodePool_N2.cfg", "N2", 600, 17))
+        sims.append(("Sim_NodePool_N2.cfg", "N2", 500, 17))
 
     # the TLC runs are independent (each in a work directory of its own): run them side by side
     class Sub:          # a Check-like collector per thread, merged afterwards in a fixed order
@@ -181,12 +184,17 @@ def run_nodepool(c, pid):
             self.configs, self.states, self.transitions, self.notes = [], 0, 0, []
         add_tlc = vlib.Check.add_tlc
         require_ok = vlib.Check.require_ok
-    subs = [Sub("tlc_design"), Sub("tlc_gen")] + [Sub("tlc_sim%d" % i) for i in range(len(sims))]
+    designs = design_configs(c.tier)
+    dsubs = [Sub("tlc_design%d" % i) for i in range(len(designs))]
+    gsub = Sub("tlc_gen")
+    ssubs = [Sub("tlc_sim%d" % i) for i in range(len(sims))]
+    subs = dsubs + [gsub] + ssubs
     with concurrent.futures.ThreadPoolExecutor(max_workers=len(subs)) as ex:
-        f_design = ex.submit(design_checks, subs[0])
-        f_gen = ex.submit(edge_cover, subs[1], rng, 220 if quick else None)
-        f_sims = [ex.submit(simulate, subs[2 + i], cfg, tn, 1 + i, num, depth, c.seed) for i, (cfg, tn, num, depth) in enumerate(sims)]
-        f_design.result()
+        f_designs = [ex.submit(design_check, dsubs[i], cfg, what) for i, (cfg, what) in enumerate(designs)]
+        f_gen = ex.submit(edge_cover, gsub, rng, 220 if quick else 1600)
+        f_sims = [ex.submit(simulate, ssubs[i], cfg, tn, 1 + i, num, depth, c.seed) for i, (cfg, tn, num, depth) in enumerate(sims)]
+        for f in f_designs:
+            f.result()
         tree0, cover, ntr, nst, total = f_gen.result()
         simres = [f.result() for f in f_sims]
     for s in subs:
